@@ -242,8 +242,8 @@ ADD2 = {
 ADD3 = {
  'C01': "vh_C01_jwt_every_request (the bearer loader as installed, over request sequences), vh_C16_routes (no forwarding-style header changes a bypass decision with reverse-proxy off), vh_C10_load_order, vh_C15_parse_ipnet.",
  'C03': "vh_C03_newcsrf_race (two concurrent login starts share no mutable state and get distinct states/nonces); vh_C03_flow_single also checks the link of every callback error page.",
- 'C04': "vh_C01_jwt_every_request, vh_C01_load_jwt, vh_C05_legacy_flags.",
- 'C05': "vh_C03_newcsrf_race; vh_C05_legacy_flags (command-line flags -> options -> NewProvider: the nonce, issuer, unverified-e-mail, PKCE and allowed-groups switches arrive at the provider unchanged).",
+ 'C04': "vh_C01_jwt_every_request, vh_C01_load_jwt, vh_C05_legacy_flags, vh_C05_alpha_merge.",
+ 'C05': "vh_C03_newcsrf_race; vh_C05_alpha_merge (structured configuration -> options, switch by switch), vh_C05_legacy_flags (command-line flags -> options -> NewProvider: the nonce, issuer, unverified-e-mail, PKCE and allowed-groups switches arrive at the provider unchanged).",
  'C06': "vh_C03_flow_single (callback error pages link where the redirect director says).",
  'C07': "vh_C07_groups_twice (several headers from one multi-valued claim; the session is not modified), vh_C07_proxy_wiring through the real buildHeadersChain with a strip-only header.",
  'C08': "vh_C05_legacy_flags (the allowed-groups flag is in force at the provider; no restriction is invented).",
